@@ -5,6 +5,7 @@
 mod sexp;
 mod semver;
 mod ranges;
+mod terms;
 
 use std::io::{BufRead, Write};
 
@@ -56,6 +57,7 @@ fn main() {
             let obs = match domain {
                 "semver" => semver::eval(&sx),
                 "ranges" | "rangeord" | "rangeq" => ranges::eval(&sx),
+                "terms" | "bitset" => terms::eval(&sx),
                 _ => panic!("unknown domain"),
             };
             out.emit(case, &obs);
@@ -68,6 +70,7 @@ fn main() {
         match domain {
             "semver" => semver::generate(&mut out, &mut rng, thorough),
             "ranges" | "rangeord" | "rangeq" => ranges::generate(&mut out, &mut rng, thorough, domain),
+            "terms" | "bitset" => terms::generate(&mut out, &mut rng, thorough, domain),
             _ => panic!("unknown domain"),
         }
     }
